@@ -3,6 +3,8 @@ package wire
 import (
 	"context"
 	"sync"
+
+	"github.com/jackc/pgx/v5/pgtype"
 )
 
 // ---------------------------------------------------------------------------
@@ -69,8 +71,13 @@ func VerifH15() {
 		return Prepared(NewStatement(fn, WithColumns(vTextColumns(me.cols)))), nil
 	}
 	global := Parameters{"app": "v"}
-	srv, err := NewServer(parse, MessageBufferSize(64), GlobalParameters(global), Version("15"),
-		SessionMiddleware(func(ctx context.Context) (context.Context, error) { return ctx, nil }))
+	opts := []OptionFn{MessageBufferSize(64), GlobalParameters(global), Version("15"),
+		SessionMiddleware(func(ctx context.Context) (context.Context, error) { return ctx, nil })}
+	extended := nondetBool() // configuration: with or without a type extension registered
+	if extended {
+		opts = append(opts, ExtendTypes(func(m *pgtype.Map) {}))
+	}
+	srv, err := NewServer(parse, opts...)
 	vAssert("newserver-ok", err == nil)
 	c1 := vNewConn(vConnTraffic(u1, name, ext1, sim1))
 	c2 := vNewConn(vConnTraffic(u2, name, ext2, sim2))
@@ -168,5 +175,8 @@ func VerifH15() {
 	}
 	if ext1 && ext2 {
 		vReach("same-names-on-both")
+	}
+	if extended && st[0].rows && st[1].rows {
+		vReach("with-type-extension")
 	}
 }
